@@ -66,6 +66,8 @@ SINGLETONS = [
     "ephemeralnet::network::RelayClient", "ephemeralnet::crypto::CryptoManager",
     "ephemeralnet::daemon::ControlServer::Impl",
 ]
+# classes whose methods are followed (call graph) although their own fields are not node state
+FOLLOW_ONLY = ["ephemeralnet::daemon::ControlServer"]
 # classes with many instances whose instances are merged into one abstract object
 MULTI_INSTANCE = ["ephemeralnet::network::SessionManager::Session"]
 # struct types whose fields are tracked individually when they are the type of a member
@@ -542,7 +544,10 @@ class FnAnalysis:
             for f in self.prog.records[rec]["fields"]:
                 if f["n"] == n["n"]:
                     return [rec, f["n"], f["dt"] or f["t"]]
-        return None
+        if "bound member function type" in (n.get("t") or "") or "<overloaded function type>" in (n.get("t") or ""):
+            return None
+        # a data member of a record we have no declaration for (std::pair::second, ...)
+        return [None, n["n"], self.ty(n)]
 
     # ---- roots of an lvalue / pointer-ish expression ---------------------------------
     def roots_of(self, n, depth=0) -> Optional[set]:
@@ -1039,7 +1044,7 @@ class FnAnalysis:
             callee = self.unwrap(n["in"][0])
             name = (callee.get("ref") or {}).get("n") or ""
             obj = n["in"][1]
-            if name == "operator[]" and re.search(r"\bmap<", self.ty(self.unwrap(obj)) or self.ty(obj)):
+            if name == "operator[]" and re.search(r"map<", self.ty(self.unwrap(obj)) or self.ty(obj)):
                 ot = self.ty(self.unwrap(obj))
                 if not re.match(r"\s*const\b", ot):
                     return True
@@ -1317,7 +1322,7 @@ class FnAnalysis:
         cls = fn.get("cls")
         if fn.get("lam") or cls is None:
             return True
-        return cls in SINGLETONS or cls in MULTI_INSTANCE
+        return cls in SINGLETONS or cls in MULTI_INSTANCE or cls in FOLLOW_ONLY
 
     def _cbcall(self, obj, n, held):
         u = self.unwrap(obj)
@@ -1636,3 +1641,38 @@ def reference_member_gaps(prog: Program) -> list[str]:
                     f"{cls}::{f['n']}" not in LOCK_ALIASES:
                 out.append(f"reference member {cls}::{f['n']} ({t}) has no alias entry")
     return out
+
+
+# --------------------------------------------------------------------------------------
+# self-test of the analysis on props/C36_selftest.cpp
+# --------------------------------------------------------------------------------------
+
+def selftest_rows() -> tuple[set, list, list]:
+    """rows (role, location, kind, locks) the extractor produces for the self-test input"""
+    global SINGLETONS, MULTI_INSTANCE
+    box, item = "ephemeralnet::selftest::Box", "ephemeralnet::selftest::Item"
+    added = []
+    for lst, q in ((SINGLETONS, box), (MULTI_INSTANCE, item)):
+        if q not in lst:
+            lst.append(q)
+            added.append((lst, q))
+    try:
+        tu = load_tu(str(vlib.VERIF / "props" / "C36_selftest.cpp"), "ephemeralnet")
+        prog = Program([tu])
+        tops = [fn for k, fn in prog.functions.items() if "::lambda#" not in k]
+        for _ in range(3):
+            prog.summaries = {}
+            for fn in tops:
+                prog.summaries.update(FnAnalysis(prog, fn).summarize())
+            new = {k: {x for x in v["ret"] if x[0] == F} for k, v in prog.summaries.items()}
+            if new == prog.ret_roots:
+                break
+            prog.ret_roots = new
+        roles = {"A": {"multi": False, "entries": [(box + "::entryA", [])]},
+                 "B": {"multi": False, "entries": [(box + "::entryB", [])]}}
+        tab = build_table(prog, roles, lambda l: True)
+        rows = {(rk[0], rk[1].split("selftest::")[-1], rk[2], tuple(l.split("::")[-1] for l in rk[3])) for rk in tab.rows}
+        return rows, [c.split("selftest::")[-1] for c in tab.confined], tab.gaps
+    finally:
+        for lst, q in added:
+            lst.remove(q)
